@@ -2,8 +2,6 @@
 
 package stats
 
-import "sync/atomic"
-
 // VerifSnapshot is a copy of the raw counters behind the public getters.
 type VerifSnapshot struct {
 	URLsCrawledTotal      uint64
@@ -35,12 +33,12 @@ func VerifTotals() *VerifSnapshot {
 		PostprocessorRoutines: s.PostprocessorRoutines.get(),
 		FinisherRoutines:      s.FinisherRoutines.get(),
 		HTTPCodesTotal:        s.HTTPReturnCodes.getAllTotal(),
-		MeanHTTPCount:         atomic.LoadUint64(&s.MeanHTTPResponseTime.count),
-		MeanHTTPSum:           atomic.LoadUint64(&s.MeanHTTPResponseTime.sum),
-		MeanBodyCount:         atomic.LoadUint64(&s.MeanProcessBodyTime.count),
-		MeanBodySum:           atomic.LoadUint64(&s.MeanProcessBodyTime.sum),
-		MeanFeedbackCount:     atomic.LoadUint64(&s.MeanWaitOnFeedbackTime.count),
-		MeanFeedbackSum:       atomic.LoadUint64(&s.MeanWaitOnFeedbackTime.sum),
+		MeanHTTPCount:         first(s.MeanHTTPResponseTime.raw()),
+		MeanHTTPSum:           second(s.MeanHTTPResponseTime.raw()),
+		MeanBodyCount:         first(s.MeanProcessBodyTime.raw()),
+		MeanBodySum:           second(s.MeanProcessBodyTime.raw()),
+		MeanFeedbackCount:     first(s.MeanWaitOnFeedbackTime.raw()),
+		MeanFeedbackSum:       second(s.MeanWaitOnFeedbackTime.raw()),
 	}
 }
 
@@ -66,9 +64,16 @@ type VerifMean struct{ m mean }
 func (v *VerifMean) Add(n uint64) { v.m.add(n) }
 func (v *VerifMean) Get() float64 { return v.m.get() }
 func (v *VerifMean) Reset()       { v.m.reset() }
-func (v *VerifMean) Raw() (count, sum uint64) {
-	return atomic.LoadUint64(&v.m.count), atomic.LoadUint64(&v.m.sum)
+func (v *VerifMean) Raw() (count, sum uint64) { return v.m.raw() }
+
+func (m *mean) raw() (count, sum uint64) {
+	m.mu.Lock()
+	defer m.mu.Unlock()
+	return m.count, m.sum
 }
+
+func first(a, _ uint64) uint64  { return a }
+func second(_, b uint64) uint64 { return b }
 
 type VerifRateBucket struct{ b *rateBucket }
 
